@@ -46,7 +46,11 @@ func (g *Gen) historyStep() {
 		a := g.rng.Intn(s.n + 1)
 		g.do(Step{Op: "Slice", Recv: f, A: a, B: a + g.rng.Intn(s.n-a+1)})
 	case 5:
-		g.do(Step{Op: "Select", Recv: f, Cols: bsList(g.subset(s.names, 4))})
+		if g.rng.Intn(3) == 0 {
+			g.do(Step{Op: "Select", Recv: f, Cols: bsList(g.perm(s.names))}) // every column, another order
+		} else {
+			g.do(Step{Op: "Select", Recv: f, Cols: bsList(g.subset(s.names, 4))})
+		}
 	case 6:
 		g.do(Step{Op: "Drop", Recv: f, Cols: bsList(g.subset(s.names, 2))})
 	case 7:
